@@ -57,7 +57,7 @@ impl From<&Ethernet> for Vec<u8> {
     fn from(eth: &Ethernet) -> Self {
         let header = eth.header.borrow().clone();
         let mut bytes: Vec<u8> = (&header).into();
-        if let Some(inner) = eth.inner.borrow().clone() {
+        if let Some(inner) = eth.inner.borrow().clone().filter(|i| !i.is_error()) {
             let data: Vec<u8> = inner.as_ref().into();
             bytes.extend_from_slice(&data);
         } else {
